@@ -109,6 +109,18 @@ def gen_patterns(n: int, rng: random.Random, tier: str):
         yield (*from_bits(rng.sample(range(total_bits), k)), "random")
 
 
+def undecodable(gen: int, frame: bytes) -> bool:
+    """the frame's payload, as it stands, is rejected by the registry's message decoder"""
+    from . import codec_tie
+    pre = 2 if gen == 4 else 14
+    try:
+        _, _, _, mtype, ln = struct.unpack_from(">BBBBH", frame, pre)
+        d = codec_tie.codec(gen).impl_decode(mtype, bytes(frame[pre + 6:pre + 6 + ln]))
+    except Exception:  # noqa: BLE001
+        return False
+    return d[0] != "ok"
+
+
 def check_c06(tier: str) -> int:
     ck = common.Check("C06", tier)
     ck.rule = ("(a) Crc16Modbus.calculate/validate vs the extracted table-driven model on all strings of length 0..2 "
@@ -307,7 +319,12 @@ def check_c06(tier: str) -> int:
                                 pass     # e.g. a random 5-bit pattern that is a codeword: no guarantee exists
                             else:
                                 ck.violation(f"frame altered by a pattern the vendor format cannot detect ({cls}) was delivered", replay)
-                    if ds != m_ds:
+                    if ds != m_ds and not ds and m_ds and undecodable(gen, bad):
+                        # the check bytes happen to fit (a pattern outside the CRC-16 guarantee) but the altered payload is
+                        # no longer a decodable message: the receive path rejects it one step later, the raw stream model
+                        # (which has no message decoder) cannot know
+                        dist["altered_frame_rejected_by_the_message_decoder"] += 1
+                    elif ds != m_ds:
                         replay["no_longer_checks"] = "Stream.v rx_one vs _read_one_message (deliveries)"
                         replay["trigger"] = {"received_hex": bad.hex(), "what": "model-mismatch"}
                         ck.violation("correspondence", replay, found_input=False)
